@@ -805,4 +805,669 @@ Section Sweep.
     assert (0 < mean (nzs m) / qnth m i) by (now apply Qdiv_pos).
     specialize (Hb i). nra.
   Qed.
+  (** the squared deviation of a non-zero marginal is at most N * var *)
+  Lemma dev_bound : forall (l : list Q) x, In x l ->
+    (x - mean l) * (x - mean l) <= qlen l * variance l.
+  Proof.
+    intros l x Hx. rewrite variance_eq.
+    assert (Hne : l <> []) by (intro; subst; contradiction).
+    pose proof (qlen_pos l Hne) as HN.
+    setoid_replace (qlen l * (sumQ (map (fun x0 => (x0 - mean l) * (x0 - mean l)) l) / qlen l))
+      with (sumQ (map (fun x0 => (x0 - mean l) * (x0 - mean l)) l)) by (field; lra).
+    now apply sq_le_sum.
+  Qed.
+
+  Lemma abs_from_sq : forall d e : Q, 0 <= e -> d * d < e * e -> - e < d /\ d < e.
+  Proof. intros d e He H. split; nra. Qed.
+
+  Lemma ratio_bounds : forall mu mk eps, 0 < mk -> mu * (1 - eps) <= mk -> mk <= mu * (1 + eps) ->
+    1 <= (mu / mk) * (1 + eps) /\ (mu / mk) * (1 - eps) <= 1.
+  Proof.
+    intros mu mk eps Hk H1 H2. split.
+    - apply (Qmult_le_r _ _ mk Hk).
+      setoid_replace (mu / mk * (1 + eps) * mk) with (mu * (1 + eps)) by (field; lra). lra.
+    - apply (Qmult_le_r _ _ mk Hk).
+      setoid_replace (mu / mk * (1 - eps) * mk) with (mu * (1 - eps)) by (field; lra). lra.
+  Qed.
+
+  Definition cf (mu : Q) (m : list Q) (k : Z) : Q := if qz (qnth m k) then 1 else mu / qnth m k.
+
+  Lemma rowsum_as_terms : forall b i, rowsum F n b i == sumQ (map (fun j => qnth b i * F i j * qnth b j) (zrange 0 n)).
+  Proof.
+    intros. unfold rowsum. rewrite <- sumQ_scal. apply sumQ_ext. intros; ring.
+  Qed.
+
+  (** C10.4  flatness bound.  The sweep that passes the test var < tol returns weights b' that are one update
+      ahead of the tested marginals m; for every eps in [0,1) with N*tol <= eps^2 * mu^2 the row sums of
+      diag(b') F diag(b') on every bin with a non-zero marginal lie in [mu/(1+eps), mu/(1-eps)]. *)
+  Theorem flatness_bound : forall m b b' var mu tol eps i,
+    MargOf m b -> NonNeg b -> length b = n ->
+    ic_update m b = Some (b', var, mu) ->
+    var < tol -> 0 <= eps -> eps < 1 ->
+    qlen (nzs m) * tol <= eps * eps * mu * mu ->
+    InR i -> ~ qnth m i == 0 ->
+    mu / (1 + eps) <= rowsum F n b' i /\ rowsum F n b' i <= mu / (1 - eps).
+  Proof.
+    intros m b b' var mu tol eps i HM Hb Hlb Hup Hvar He0 He1 Hbound Hi Hmi.
+    apply ic_update_some in Hup. destruct Hup as [Hne [Emu [Evar Eb']]].
+    assert (Hmu : 0 < mu) by (subst mu; eapply mean_nz_pos; eauto).
+    assert (HN : 0 < qlen (nzs m)) by (now apply qlen_pos).
+    assert (Hlm : length m = length b) by (destruct HM; congruence).
+    (* A: every non-zero marginal is within eps*mu of mu *)
+    assert (A : forall k, ~ qnth m k == 0 -> 0 < qnth m k /\ mu * (1 - eps) <= qnth m k /\ qnth m k <= mu * (1 + eps)).
+    { intros k Hk.
+      assert (Hin : In (qnth m k) (nzs m)).
+      { apply in_nzs. split; [|assumption]. unfold qnth.
+        destruct (Nat.lt_ge_cases (Z.to_nat k) (length m)) as [Hlt|Hge]; [now apply nth_In|].
+        exfalso. apply Hk. unfold qnth. now rewrite nth_overflow. }
+      pose proof (dev_bound (nzs m) (qnth m k) Hin) as Hd. rewrite <- Emu, <- Evar in Hd.
+      assert (Hsq : (qnth m k - mu) * (qnth m k - mu) < (eps * mu) * (eps * mu)).
+      { assert (qlen (nzs m) * var < qlen (nzs m) * tol) by (apply Qmult_lt_l; assumption).
+        setoid_replace (eps * mu * (eps * mu)) with (eps * eps * mu * mu) by ring. lra. }
+      assert (0 <= eps * mu) by nra.
+      destruct (abs_from_sq _ _ H Hsq) as [H1 H2].
+      split; [eapply nz_pos; eauto|]. split; nra. }
+    (* B: the new weights *)
+    assert (B : forall k, qnth b' k == qnth b k * cf mu m k).
+    { intros k. rewrite Eb', qnth_upd by assumption. rewrite upd_eq by lra.
+      unfold cf. destruct (qz (qnth m k)); ring. }
+    assert (Cpos : forall k, 0 < cf mu m k).
+    { intros k. unfold cf. destruct (qz (qnth m k)) eqn:E; [lra|]. apply qz_false in E.
+      apply Qdiv_pos; [assumption | apply (A k E)]. }
+    assert (Cb : forall k, ~ qnth m k == 0 -> 1 <= cf mu m k * (1 + eps) /\ cf mu m k * (1 - eps) <= 1).
+    { intros k Hk. destruct (A k Hk) as [Hp [H1 H2]]. unfold cf.
+      destruct (qz (qnth m k)) eqn:E; [apply qz_true in E; contradiction|]. now apply ratio_bounds. }
+    (* the new row sum as c_i * sum_j t_j c_j with t_j = b_i F_ij b_j >= 0 *)
+    set (t := fun j => qnth b i * F i j * qnth b j).
+    assert (Ht0 : forall j, 0 <= t j).
+    { intros j. unfold t. pose proof (Hb i). pose proof (Hb j). pose proof (F_nonneg i j).
+      assert (0 <= qnth b i * F i j) by nra. nra. }
+    assert (ER : rowsum F n b' i == cf mu m i * sumQ (map (fun j => t j * cf mu m j) (zrange 0 n))).
+    { rewrite rowsum_as_terms. rewrite <- sumQ_scal. apply sumQ_ext. intros j _.
+      rewrite (B i), (B j). unfold t. ring. }
+    assert (Esum : sumQ (map t (zrange 0 n)) == qnth m i).
+    { destruct HM as [_ HM]. rewrite (HM i Hi). rewrite rowsum_as_terms. reflexivity. }
+    (* a non-zero term has a partner with a non-zero marginal *)
+    assert (Hpartner : forall j, In j (zrange 0 n) -> ~ t j == 0 -> ~ qnth m j == 0).
+    { intros j Hj Htj Hmj. apply in_zrange in Hj.
+      destruct HM as [_ HM]. rewrite (HM j Hj) in Hmj. rewrite rowsum_as_terms in Hmj.
+      assert (Hle : qnth b j * F j i * qnth b i <= sumQ (map (fun k => qnth b j * F j k * qnth b k) (zrange 0 n))).
+      { apply (sumQ_term_le (zrange 0 n) (fun k => qnth b j * F j k * qnth b k)).
+        - intros k _. pose proof (Hb j). pose proof (Hb k). pose proof (F_nonneg j k).
+          assert (0 <= qnth b j * F j k) by nra. nra.
+        - now apply in_zrange. }
+      apply Htj. unfold t. pose proof (Ht0 j) as H0. unfold t in H0.
+      rewrite (F_sym j i) in Hle. rewrite Hmj in Hle.
+      setoid_replace (qnth b j * F i j * qnth b i) with (qnth b i * F i j * qnth b j) in Hle by ring.
+      lra. }
+    assert (Hlo : sumQ (map t (zrange 0 n)) <= sumQ (map (fun j => t j * cf mu m j * (1 + eps)) (zrange 0 n))).
+    { apply sumQ_le. intros j Hj. pose proof (Ht0 j) as H0.
+      destruct (Qeq_dec (t j) 0) as [Ez|Enz]; [rewrite Ez; lra|].
+      destruct (Cb j (Hpartner j Hj Enz)) as [H1 _].
+      setoid_replace (t j * cf mu m j * (1 + eps)) with (t j * (cf mu m j * (1 + eps))) by ring. nra. }
+    assert (Hhi : sumQ (map (fun j => t j * cf mu m j * (1 - eps)) (zrange 0 n)) <= sumQ (map t (zrange 0 n))).
+    { apply sumQ_le. intros j Hj. pose proof (Ht0 j) as H0.
+      destruct (Qeq_dec (t j) 0) as [Ez|Enz]; [rewrite Ez; lra|].
+      destruct (Cb j (Hpartner j Hj Enz)) as [_ H2].
+      setoid_replace (t j * cf mu m j * (1 - eps)) with (t j * (cf mu m j * (1 - eps))) by ring. nra. }
+    assert (Eci : cf mu m i * qnth m i == mu).
+    { unfold cf. destruct (qz (qnth m i)) eqn:E; [apply qz_true in E; contradiction|]. field. assumption. }
+    set (S := sumQ (map (fun j => t j * cf mu m j) (zrange 0 n))) in *.
+    assert (E1 : sumQ (map (fun j => t j * cf mu m j * (1 + eps)) (zrange 0 n)) == (1 + eps) * S).
+    { unfold S. rewrite <- sumQ_scal. apply sumQ_ext. intros; ring. }
+    assert (E2 : sumQ (map (fun j => t j * cf mu m j * (1 - eps)) (zrange 0 n)) == (1 - eps) * S).
+    { unfold S. rewrite <- sumQ_scal. apply sumQ_ext. intros; ring. }
+    rewrite E1 in Hlo. rewrite E2 in Hhi. rewrite Esum in Hlo, Hhi.
+    pose proof (Cpos i) as Hci.
+    split.
+    - apply Qle_shift_div_r; [lra|]. rewrite ER.
+      assert (cf mu m i * qnth m i <= cf mu m i * ((1 + eps) * S)) by (apply Qmult_le_l; assumption).
+      rewrite Eci in H. lra.
+    - apply Qle_shift_div_l; [lra|]. rewrite ER.
+      assert (cf mu m i * ((1 - eps) * S) <= cf mu m i * qnth m i) by (apply Qmult_le_l; assumption).
+      rewrite Eci in H. lra.
+  Qed.
+
+  (** ** the loop: zero pattern, NaN set, last sweep *)
+  Definition ZPat (b b' : list Q) : Prop := forall i, InR i -> (qnth b i == 0 <-> qnth b' i == 0).
+  Definition AllZero (b : list Q) : Prop := forall i, InR i -> rowsum F n b i == 0.
+
+  Lemma zpat_refl : forall b, ZPat b b. Proof. intros b i _. tauto. Qed.
+  Lemma zpat_trans : forall a b c, ZPat a b -> ZPat b c -> ZPat a c.
+  Proof. intros a b c H1 H2 i Hi. rewrite (H1 i Hi). now apply H2. Qed.
+  Lemma zpat_sym : forall a b, ZPat a b -> ZPat b a.
+  Proof. intros a b H i Hi. symmetry. now apply H. Qed.
+
+  Lemma sumQ_exists_pos : forall (L : list Z) f, (forall j, In j L -> 0 <= f j) -> 0 < sumQ (map f L) ->
+    exists j, In j L /\ 0 < f j.
+  Proof.
+    induction L as [|x L IH]; intros f H Hs; simpl in Hs; [lra|].
+    destruct (Qlt_le_dec 0 (f x)) as [Hp|Hn].
+    - exists x. split; [now left | assumption].
+    - assert (f x == 0) by (pose proof (H x (or_introl eq_refl)); lra).
+      destruct (IH f) as [j [Hj Hpj]]; [intros; apply H; now right | lra |].
+      exists j. split; [now right | assumption].
+  Qed.
+
+  Lemma rowsum_pos_witness : forall b i, NonNeg b -> 0 < rowsum F n b i ->
+    0 < qnth b i /\ exists j, InR j /\ 0 < F i j /\ 0 < qnth b j.
+  Proof.
+    intros b i Hb Hp. unfold rowsum in Hp.
+    assert (Hs : 0 <= sumQ (map (fun j => F i j * qnth b j) (zrange 0 n))).
+    { apply sumQ_nonneg. intros j _. pose proof (F_nonneg i j). pose proof (Hb j). nra. }
+    pose proof (Hb i) as Hbi.
+    assert (0 < qnth b i) by nra.
+    assert (Hs' : 0 < sumQ (map (fun j => F i j * qnth b j) (zrange 0 n))) by nra.
+    split; [assumption|].
+    assert (Hnn : forall j, In j (zrange 0 n) -> 0 <= (fun j => F i j * qnth b j) j).
+    { intros j _. pose proof (F_nonneg i j). pose proof (Hb j). cbv beta. nra. }
+    destruct (sumQ_exists_pos _ _ Hnn Hs') as [j [Hj Hpj]]. cbv beta in Hpj.
+    exists j. apply in_zrange in Hj. pose proof (F_nonneg i j). pose proof (Hb j).
+    split; [exact Hj|]. split; nra.
+  Qed.
+
+  Lemma rowsum_support : forall b b' i, NonNeg b -> NonNeg b' -> ZPat b b' -> InR i ->
+    0 < rowsum F n b i -> 0 < rowsum F n b' i.
+  Proof.
+    intros b b' i Hb Hb' Hz Hi Hp.
+    destruct (rowsum_pos_witness b i Hb Hp) as [Hbi [j [Hj [HF Hbj]]]].
+    assert (0 < qnth b' i).
+    { pose proof (Hb' i). destruct (Qeq_dec (qnth b' i) 0) as [E|E]; [apply (Hz i Hi) in E; lra | lra]. }
+    assert (0 < qnth b' j).
+    { pose proof (Hb' j). destruct (Qeq_dec (qnth b' j) 0) as [E|E]; [apply (Hz j Hj) in E; lra | lra]. }
+    rewrite rowsum_as_terms.
+    assert (Hle : qnth b' i * F i j * qnth b' j <= sumQ (map (fun k => qnth b' i * F i k * qnth b' k) (zrange 0 n))).
+    { apply (sumQ_term_le (zrange 0 n) (fun k => qnth b' i * F i k * qnth b' k)).
+      - intros k _. pose proof (Hb' i). pose proof (Hb' k). pose proof (F_nonneg i k).
+        assert (0 <= qnth b' i * F i k) by nra. nra.
+      - now apply in_zrange. }
+    assert (0 < qnth b' i * F i j) by nra. nra.
+  Qed.
+
+  Lemma allzero_zpat : forall b b', NonNeg b -> NonNeg b' -> ZPat b b' -> AllZero b -> AllZero b'.
+  Proof.
+    intros b b' Hb Hb' Hz Ha i Hi.
+    pose proof (rowsum_nonneg F n b' i F_nonneg Hb').
+    destruct (Qlt_le_dec 0 (rowsum F n b' i)) as [Hp|Hn]; [|lra].
+    pose proof (rowsum_support b' b i Hb' Hb (zpat_sym _ _ Hz) Hi Hp). rewrite (Ha i Hi) in H0. lra.
+  Qed.
+
+  Lemma nzs_nil_iff : forall m, length m = n -> (nzs m = [] <-> forall i, InR i -> qnth m i == 0).
+  Proof.
+    intros m Hl. split.
+    - intros H i Hi. destruct (Qeq_dec (qnth m i) 0) as [E|E]; [assumption|].
+      assert (In (qnth m i) (nzs m)).
+      { apply in_nzs. split; [|assumption]. apply qnth_in. unfold zlen, InR in *. lia. }
+      rewrite H in H0. contradiction.
+    - intros H. destruct (nzs m) as [|x l] eqn:E; [reflexivity|].
+      assert (Hx : In x (nzs m)) by (rewrite E; now left).
+      apply in_nzs in Hx. destruct Hx as [Hin Hnz].
+      apply In_nth with (d := 0) in Hin. destruct Hin as [k [Hk <-]].
+      exfalso. apply Hnz. specialize (H (Z.of_nat k)). unfold qnth in H. rewrite Nat2Z.id in H.
+      apply H. unfold InR. lia.
+  Qed.
+
+  Lemma update_none_iff : forall m b, MargOf m b -> (ic_update m b = None <-> AllZero b).
+  Proof.
+    intros m b HM. unfold ic_update.
+    assert (E : nzs m = [] <-> AllZero b).
+    { rewrite (nzs_nil_iff m (proj1 HM)). unfold AllZero. destruct HM as [_ HM].
+      split; intros H i Hi; [rewrite <- (HM i Hi) | rewrite (HM i Hi)]; now apply H. }
+    destruct (nzs m) as [|x l]; split; intros H; try reflexivity; try discriminate.
+    - now apply E.
+    - apply E in H. discriminate.
+  Qed.
+
+  Lemma length_update : forall m b b' var mu, ic_update m b = Some (b', var, mu) -> length m = length b ->
+    length b' = length b.
+  Proof.
+    intros m b b' var mu H Hl. apply ic_update_some in H. destruct H as [_ [_ [_ ->]]].
+    rewrite map_length, combine_length. lia.
+  Qed.
+
+  Lemma update_zpat : forall m b b' var mu, MargOf m b -> NonNeg b -> length b = n ->
+    ic_update m b = Some (b', var, mu) -> ZPat b b'.
+  Proof.
+    intros m b b' var mu HM Hb Hl H i Hi. split.
+    - intros Hz. eapply zero_stays_zero; eauto. destruct HM; congruence.
+    - intros Hz. pose proof (Hb i) as H0.
+      destruct (Qeq_dec (qnth b i) 0) as [E|E]; [assumption|].
+      assert (0 < qnth b i) by lra.
+      pose proof (positive_stays_positive m b b' var mu i HM Hb Hl H Hi H1). lra.
+  Qed.
+
+  Variable margf : list Q -> list Q.
+  Hypothesis margf_spec : forall b, length b = n -> MargOf (margf b) b.
+
+  (** invariant of the loop, by induction on the iteration budget *)
+  Theorem loop_inv : forall tol fuel b bb s v k,
+    length b = n -> NonNeg b -> ic_loop margf tol fuel b = Some (bb, s, v, k) ->
+    length bb = n /\ NonNeg bb /\ ZPat b bb /\ (s = None <-> AllZero b) /\ (1 <= k <= fuel)%nat /\
+    (forall mu, s = Some mu ->
+       exists bp, length bp = n /\ NonNeg bp /\ ZPat b bp /\ ic_update (margf bp) bp = Some (bb, v, mu) /\
+                  ((k < fuel)%nat -> v < tol)).
+  Proof.
+    intros tol fuel. induction fuel as [|f IH]; intros b bb s v k Hl Hb H; [discriminate|].
+    simpl in H. pose proof (margf_spec b Hl) as HM.
+    destruct (ic_update (margf b) b) as [[[b' var] mu]|] eqn:E.
+    - assert (Hnz : ~ AllZero b).
+      { intro Ha. apply (update_none_iff _ _ HM) in Ha. congruence. }
+      assert (Hl' : length b' = n) by (erewrite length_update; eauto; destruct HM; congruence).
+      assert (Hb' : NonNeg b') by (eapply sweep_nonneg; eauto).
+      assert (Hz' : ZPat b b') by (eapply update_zpat; eauto).
+      destruct (Qltb var tol) eqn:Ec.
+      + inversion H; subst.
+        refine (conj Hl' (conj Hb' (conj Hz' (conj _ (conj _ _))))).
+        * split; [discriminate | intros Ha; contradiction].
+        * lia.
+        * intros mu0 Hs. inversion Hs; subst. exists b.
+          refine (conj Hl (conj Hb (conj (zpat_refl b) (conj E _)))).
+          intros _. now apply Qltb_true.
+      + destruct (ic_loop margf tol f b') as [[[[bb2 s2] v2] k2]|] eqn:E2.
+        * inversion H; subst. destruct (IH _ _ _ _ _ Hl' Hb' E2) as [L2 [N2 [Z2 [S2 [K2 P2]]]]].
+          refine (conj L2 (conj N2 (conj (zpat_trans _ _ _ Hz' Z2) (conj _ (conj _ _))))).
+          -- split.
+             ++ intros Hs. apply S2 in Hs. exfalso. apply Hnz.
+                apply (allzero_zpat b' b); auto using zpat_sym.
+             ++ intros Ha. contradiction.
+          -- lia.
+          -- intros mu0 Hs. destruct (P2 mu0 Hs) as [bp [Lp [Np [Zp [Up Cp]]]]].
+             exists bp. refine (conj Lp (conj Np (conj (zpat_trans _ _ _ Hz' Zp) (conj Up _)))).
+             intros Hk. apply Cp. lia.
+        * inversion H; subst.
+          refine (conj Hl' (conj Hb' (conj Hz' (conj _ (conj _ _))))).
+          -- split; [discriminate | intros Ha; contradiction].
+          -- lia.
+          -- intros mu0 Hs. inversion Hs; subst. exists b.
+             refine (conj Hl (conj Hb (conj (zpat_refl b) (conj E _)))).
+             intros Hk. exfalso. destruct f; [lia|]. simpl in E2.
+             destruct (ic_update (margf bb) bb) as [[[l1 q1] q2]|]; [|discriminate].
+             destruct (Qltb q1 tol); [discriminate|].
+             destruct (ic_loop margf tol f l1) as [[[[? ?] ?] ?]|]; discriminate.
+    - inversion H; subst. apply (update_none_iff _ _ HM) in E.
+      refine (conj Hl (conj Hb (conj (zpat_refl _) (conj _ (conj _ _))))).
+      + split; auto.
+      + lia.
+      + intros; discriminate.
+  Qed.
+
+  Definition onth (l : list (option Q)) (i : Z) : option Q := nth (Z.to_nat i) l None.
+
+  (** C10.2  NaN-set characterisation: after the loop a bin is NaN iff it entered with weight 0 (masked) or the
+      whole (sub)problem has no non-zero marginal; every other bin has a positive weight *)
+  Theorem nan_set : forall tol fuel b bb s v k i,
+    length b = n -> NonNeg b -> ic_loop margf tol fuel b = Some (bb, s, v, k) -> InR i ->
+    (onth (mark_nan s bb) i = None <-> (AllZero b \/ qnth b i == 0)) /\
+    (forall x, onth (mark_nan s bb) i = Some x -> 0 < x /\ x = qnth bb i).
+  Proof.
+    intros tol fuel b bb s v k i Hl Hb H Hi.
+    destruct (loop_inv tol fuel b bb s v k Hl Hb H) as [L [N [Z [S _]]]].
+    assert (Hk : (Z.to_nat i < length bb)%nat) by (unfold InR in Hi; lia).
+    unfold onth, mark_nan. destruct s as [mu|].
+    - assert (Hn : ~ AllZero b) by (intro Ha; apply S in Ha; discriminate).
+      rewrite (nth_indep _ None ((fun x => if qz x then None else Some x) 0)) by (now rewrite map_length).
+      rewrite (map_nth (fun x => if qz x then None else Some x)). fold (qnth bb i).
+      destruct (qz (qnth bb i)) eqn:E.
+      + apply qz_true in E. split; [|intros; discriminate]. split; [intros _|reflexivity].
+        right. now apply (Z i Hi).
+      + apply qz_false in E. split.
+        * split; [discriminate|]. intros [Ha|Hz]; [contradiction|]. apply (Z i Hi) in Hz. contradiction.
+        * intros x Hx. inversion Hx; subst. split; [|reflexivity]. pose proof (N i). lra.
+    - assert (Ha : AllZero b) by (now apply S).
+      assert (En : forall (l : list Q) k0, nth k0 (map (fun _ : Q => @None Q) l) None = None).
+      { induction l as [|y l IHl]; intros [|k0]; simpl; auto. }
+      rewrite En. split; [tauto | intros; discriminate].
+  Qed.
+
+  (** number of bins with a non-zero row sum: the N of the flatness bound, a function of the zero pattern only *)
+  Definition nnz_rows (b : list Q) : Q :=
+    qlen (filter (fun i => negb (qz (rowsum F n b i))) (zrange 0 n)).
+
+  Lemma list_as_map : forall m : list Q, length m = n -> m = map (qnth m) (zrange 0 n).
+  Proof.
+    intros m Hl. apply (nth_ext _ _ 0 (qnth m 0)).
+    - unfold zrange. now rewrite !map_length, seq_length.
+    - intros k Hk. rewrite nth_zrange_map by lia. unfold qnth. now rewrite Nat2Z.id.
+  Qed.
+
+  Lemma filter_map_length {A B} : forall (g : A -> B) p (L : list A),
+    length (filter p (map g L)) = length (filter (fun x => p (g x)) L).
+  Proof. induction L as [|x L IH]; simpl; [reflexivity|]. destruct (p (g x)); simpl; now rewrite IH. Qed.
+
+  Lemma qz_proper : forall x y, x == y -> qz x = qz y.
+  Proof.
+    intros x y H. destruct (qz x) eqn:Ex, (qz y) eqn:Ey; auto.
+    - apply qz_true in Ex. apply qz_false in Ey. exfalso. apply Ey. now rewrite <- H.
+    - apply qz_true in Ey. apply qz_false in Ex. exfalso. apply Ex. now rewrite H.
+  Qed.
+
+  Lemma rowsum_zero_zpat : forall b b' i, NonNeg b -> NonNeg b' -> ZPat b b' -> InR i ->
+    qz (rowsum F n b i) = qz (rowsum F n b' i).
+  Proof.
+    intros b b' i Hb Hb' Hz Hi.
+    pose proof (rowsum_nonneg F n b i F_nonneg Hb). pose proof (rowsum_nonneg F n b' i F_nonneg Hb').
+    destruct (qz (rowsum F n b i)) eqn:E1, (qz (rowsum F n b' i)) eqn:E2; auto.
+    - apply qz_true in E1. apply qz_false in E2.
+      assert (0 < rowsum F n b' i) by (destruct (Qlt_le_dec 0 (rowsum F n b' i)); [assumption | exfalso; apply E2; lra]).
+      pose proof (rowsum_support b' b i Hb' Hb (zpat_sym _ _ Hz) Hi H1). lra.
+    - apply qz_true in E2. apply qz_false in E1.
+      assert (0 < rowsum F n b i) by (destruct (Qlt_le_dec 0 (rowsum F n b i)); [assumption | exfalso; apply E1; lra]).
+      pose proof (rowsum_support b b' i Hb Hb' Hz Hi H1). lra.
+  Qed.
+
+  Lemma nzs_count : forall m b bp, MargOf m bp -> NonNeg b -> NonNeg bp -> ZPat b bp ->
+    qlen (nzs m) = nnz_rows b.
+  Proof.
+    intros m b bp [Hl HM] Hb Hbp Hz. unfold nnz_rows, qlen, zlen. f_equal. f_equal.
+    unfold nzs. rewrite (list_as_map m Hl) at 1. rewrite filter_map_length.
+    f_equal. apply filter_ext_in. intros i Hi. apply in_zrange in Hi. f_equal.
+    rewrite (qz_proper _ _ (HM i Hi)). symmetry. now apply rowsum_zero_zpat.
+  Qed.
+
+  (** C10.4 on the loop: a run that stops with var < tol returns weights whose row sums lie in the band *)
+  Theorem loop_flatness : forall tol fuel b bb mu v k eps i,
+    length b = n -> NonNeg b ->
+    ic_loop margf tol fuel b = Some (bb, Some mu, v, k) -> v < tol ->
+    0 <= eps -> eps < 1 -> nnz_rows b * tol <= eps * eps * mu * mu ->
+    InR i -> ~ rowsum F n b i == 0 ->
+    mu / (1 + eps) <= rowsum F n bb i /\ rowsum F n bb i <= mu / (1 - eps).
+  Proof.
+    intros tol fuel b bb mu v k eps i Hl Hb H Hv He0 He1 HN Hi Hnz.
+    destruct (loop_inv tol fuel b bb (Some mu) v k Hl Hb H) as [L [N [Z [S [K P]]]]].
+    destruct (P mu eq_refl) as [bp [Lp [Np [Zp [Up _]]]]].
+    pose proof (margf_spec bp Lp) as HM.
+    apply (flatness_bound (margf bp) bp bb v mu tol eps i); auto.
+    - rewrite (nzs_count (margf bp) b bp HM Hb Np Zp). exact HN.
+    - destruct HM as [_ HM]. rewrite (HM i Hi).
+      intro E. apply Hnz. apply qz_true. rewrite (rowsum_zero_zpat b bp i Hb Np Zp Hi). now apply qz_true.
+  Qed.
+
+  (** the rescaled weights: any non-negative w with w_i^2 * scale = b_i^2 (i.e. w = b / sqrt(scale)) *)
+  Lemma sq_inj : forall x y : Q, 0 <= x -> 0 <= y -> x * x == y * y -> x == y.
+  Proof.
+    intros x y Hx Hy H. destruct (Qlt_le_dec x y) as [Hlt|Hge].
+    - exfalso. assert (x * x < y * y) by nra. lra.
+    - destruct (Qlt_le_dec y x) as [Hlt|Hle]; [|lra]. exfalso. assert (y * y < x * x) by nra. lra.
+  Qed.
+
+  Theorem rescaled_rowsum : forall (w bb : list Q) mu i, 0 < mu -> NonNeg bb ->
+    (forall k, 0 <= qnth w k /\ qnth w k * qnth w k * mu == qnth bb k * qnth bb k) ->
+    rowsum F n bb i == mu * rowsum F n w i.
+  Proof.
+    intros w bb mu i Hmu Hbb Hw. rewrite !rowsum_as_terms. rewrite <- sumQ_scal. apply sumQ_ext. intros j _.
+    assert (E : qnth bb i * qnth bb j == mu * (qnth w i * qnth w j)).
+    { destruct (Hw i) as [Wi Ei]. destruct (Hw j) as [Wj Ej]. pose proof (Hbb i). pose proof (Hbb j).
+      apply sq_inj; [nra | | ].
+      - assert (0 <= qnth w i * qnth w j) by nra. nra.
+      - setoid_replace (qnth bb i * qnth bb j * (qnth bb i * qnth bb j))
+          with ((qnth bb i * qnth bb i) * (qnth bb j * qnth bb j)) by ring.
+        rewrite <- Ei, <- Ej. ring. }
+    setoid_replace (qnth bb i * F i j * qnth bb j) with (F i j * (qnth bb i * qnth bb j)) by ring.
+    rewrite E. ring.
+  Qed.
+
+  Theorem loop_flatness_rescaled : forall tol fuel b bb mu v k eps i (w : list Q),
+    length b = n -> NonNeg b ->
+    ic_loop margf tol fuel b = Some (bb, Some mu, v, k) -> v < tol ->
+    0 <= eps -> eps < 1 -> nnz_rows b * tol <= eps * eps * mu * mu ->
+    (forall k, 0 <= qnth w k /\ qnth w k * qnth w k * mu == qnth bb k * qnth bb k) ->
+    InR i -> ~ rowsum F n b i == 0 ->
+    1 / (1 + eps) <= rowsum F n w i /\ rowsum F n w i <= 1 / (1 - eps).
+  Proof.
+    intros tol fuel b bb mu v k eps i w Hl Hb H Hv He0 He1 HN Hw Hi Hnz.
+    destruct (loop_flatness tol fuel b bb mu v k eps i Hl Hb H Hv He0 He1 HN Hi Hnz) as [H1 H2].
+    destruct (loop_inv tol fuel b bb (Some mu) v k Hl Hb H) as [L [N [Z [S [K P]]]]].
+    destruct (P mu eq_refl) as [bp [Lp [Np [Zp [Up _]]]]].
+    assert (Hmu : 0 < mu).
+    { apply ic_update_some in Up. destruct Up as [Hne [-> _]]. eapply mean_nz_pos; eauto. }
+    rewrite (rescaled_rowsum w bb mu i Hmu N Hw) in H1, H2.
+    split.
+    - apply Qle_shift_div_r; [lra|].
+      assert (A1 : mu / (1 + eps) * (1 + eps) <= mu * rowsum F n w i * (1 + eps)) by (apply Qmult_le_r; [lra | exact H1]).
+      setoid_replace (mu / (1 + eps) * (1 + eps)) with (mu * 1) in A1 by (field; lra).
+      setoid_replace (mu * rowsum F n w i * (1 + eps)) with (mu * (rowsum F n w i * (1 + eps))) in A1 by ring.
+      now apply (Qmult_le_l _ _ mu Hmu).
+    - apply Qle_shift_div_l; [lra|].
+      assert (A2 : mu * rowsum F n w i * (1 - eps) <= mu / (1 - eps) * (1 - eps)) by (apply Qmult_le_r; [lra | exact H2]).
+      setoid_replace (mu / (1 - eps) * (1 - eps)) with (mu * 1) in A2 by (field; lra).
+      setoid_replace (mu * rowsum F n w i * (1 - eps)) with (mu * (rowsum F n w i * (1 - eps))) in A2 by ring.
+      now apply (Qmult_le_l _ _ mu Hmu).
+  Qed.
 End Sweep.
+
+(** * 6. Instantiation on the model pipeline: genome-wide and trans-only modes *)
+Definition datnn (f : wpx -> wpx) : Prop := forall w, 0 <= dat w -> 0 <= dat (f w).
+
+Lemma datnn_binarize : datnn f_binarize.
+Proof. intros w _. unfold f_binarize, dat. simpl. destruct (qz (snd w)); lra. Qed.
+Lemma datnn_zero_diags : forall d, datnn (f_zero_diags d).
+Proof. intros d w H. unfold f_zero_diags. destruct (_ <? _)%Z; [unfold dat; simpl; lra | assumption]. Qed.
+Lemma datnn_zero_trans : forall c, datnn (f_zero_trans c).
+Proof. intros c w H. unfold f_zero_trans. destruct (_ =? _)%Z; [assumption | unfold dat; simpl; lra]. Qed.
+Lemma datnn_zero_cis : forall c, datnn (f_zero_cis c).
+Proof. intros c w H. unfold f_zero_cis. destruct (_ =? _)%Z; [unfold dat; simpl; lra | assumption]. Qed.
+
+Lemma datnn_base_filters : forall o chroms, Forall datnn (base_filters o chroms).
+Proof.
+  intros o chroms. unfold base_filters. apply Forall_app. split.
+  - destruct (o_cis o); constructor; [apply datnn_zero_trans | constructor].
+  - destruct (_ =? _)%Z; constructor; [apply datnn_zero_diags | constructor].
+Qed.
+
+Lemma pipe1_datnn : forall fs w, Forall datnn fs -> 0 <= dat w -> 0 <= dat (pipe1 fs w).
+Proof.
+  induction fs as [|f fs IH]; intros w H Hw; [exact Hw|].
+  inversion H; subst. unfold pipe1 in *. simpl. apply IH; auto.
+Qed.
+
+(** well-formed pixel table: upper triangular, bin ids in range, non-negative counts (executable check) *)
+Definition good_px (n : nat) (px : list pixel) : bool :=
+  upper_b px && inrange_b (Z.of_nat n) px && forallb (fun p => (0 <=? val p)%Z) px.
+
+Lemma filtered_nonneg : forall n fs px, Forall datnn fs -> good_px n px = true ->
+  Forall (fun w => 0 <= dat w) (filtered fs px).
+Proof.
+  intros n fs px Hf Hg. unfold good_px in Hg. rewrite !andb_true_iff in Hg. destruct Hg as [_ Hv].
+  rewrite forallb_forall in Hv. unfold filtered. rewrite Forall_map, Forall_forall. intros p Hp.
+  apply pipe1_datnn; [assumption|]. unfold init1, dat. simpl. specialize (Hv p Hp). unfold val in Hv.
+  replace 0 with (inject_Z 0) by reflexivity. rewrite <- Zle_Qle. lia.
+Qed.
+
+Lemma length_reduce : forall n rs init, Forall (fun r => length r = n) rs -> length init = n ->
+  length (fold_left vadd rs init) = n.
+Proof.
+  intros n rs. induction rs as [|r rs IH]; intros init Hf Hl; simpl; [assumption|].
+  inversion Hf; subst. apply IH; [assumption|]. rewrite length_vadd; congruence.
+Qed.
+
+Lemma length_marg_of : forall n spans fs px, length (marg_of n spans fs px) = n.
+Proof.
+  intros. unfold marg_of, reduce_add. apply length_reduce.
+  - unfold marg_chunks. rewrite Forall_map, Forall_forall. intros; apply length_marginalize.
+  - unfold zeros. apply repeat_length.
+Qed.
+
+Definition chunk_ok (chunk : option Z) : Prop := match chunk with Some c => (1 <= c)%Z | None => True end.
+
+(** the dense symmetric filtered matrix of a run *)
+Definition Fmat (fs : list (wpx -> wpx)) (px : list pixel) : Z -> Z -> Q := dense (filtered fs px).
+
+Lemma Fmat_sym : forall fs px i j, Fmat fs px i j == Fmat fs px j i.
+Proof. intros. unfold Fmat. now rewrite dense_sym. Qed.
+
+Lemma Fmat_nonneg : forall n fs px, Forall datnn fs -> good_px n px = true -> forall i j, 0 <= Fmat fs px i j.
+Proof. intros. unfold Fmat. apply dense_nonneg. eapply filtered_nonneg; eauto. Qed.
+
+Lemma gw_margof : forall n chunk fs px, chunk_ok chunk -> good_px n px = true -> Forall keyfix fs ->
+  forall b, length b = n -> MargOf (Fmat fs px) n (margf_gw n (balance_spans (zlen px) chunk) fs px b) b.
+Proof.
+  intros n chunk fs px Hc Hg Hk b Hl. split.
+  - unfold margf_gw. apply length_marg_of.
+  - intros i Hi. unfold good_px in Hg. rewrite !andb_true_iff in Hg. destruct Hg as [[Hu Hr] _].
+    unfold Fmat. apply margf_gw_is_rowsum; auto.
+Qed.
+
+(** trans-only: the loop runs on u = b * cweights over the cis-zeroed matrix T, i.e. on G = diag(cw) T diag(cw) *)
+Definition Gmat (c : list Q) (T : Z -> Z -> Q) (i j : Z) : Q := qnth c i * T i j * qnth c j.
+
+Lemma qnth_vmul : forall a b i, length a = length b -> qnth (vmul a b) i == qnth a i * qnth b i.
+Proof.
+  intros a b i. unfold qnth. generalize (Z.to_nat i) as k. revert b.
+  induction a as [|x a IH]; intros b k Hl; destruct b as [|y b]; simpl in Hl; try discriminate.
+  - destruct k; simpl; ring.
+  - destruct k; simpl; [reflexivity|]. apply IH. congruence.
+Qed.
+
+Lemma rowsum_vmul : forall T n b c i, length b = length c ->
+  rowsum T n (vmul b c) i == rowsum (Gmat c T) n b i.
+Proof.
+  intros T n b c i Hl. unfold rowsum, Gmat. rewrite (qnth_vmul b c i Hl).
+  rewrite <- !sumQ_scal. apply sumQ_ext. intros j _. rewrite (qnth_vmul b c j Hl). ring.
+Qed.
+
+Lemma trans_margof : forall n chunk fs chroms offsets px,
+  chunk_ok chunk -> good_px n px = true -> Forall keyfix fs ->
+  length (cweights n offsets) = n ->
+  forall b, length b = n ->
+    MargOf (Gmat (cweights n offsets) (Fmat (fs ++ [f_zero_cis chroms]) px)) n
+           (margf_trans n (balance_spans (zlen px) chunk) fs chroms offsets px b) b.
+Proof.
+  intros n chunk fs chroms offsets px Hc Hg Hk Hcw b Hl.
+  assert (E : margf_trans n (balance_spans (zlen px) chunk) fs chroms offsets px b =
+              margf_gw n (balance_spans (zlen px) chunk) (fs ++ [f_zero_cis chroms]) px (vmul b (cweights n offsets))).
+  { unfold margf_trans, margf_gw. now rewrite <- app_assoc. }
+  rewrite E.
+  assert (Hk' : Forall keyfix (fs ++ [f_zero_cis chroms])).
+  { apply Forall_app. split; [assumption|]. constructor; [apply keyfix_zero_cis | constructor]. }
+  assert (Hlv : length (vmul b (cweights n offsets)) = n).
+  { unfold vmul. rewrite map_length, combine_length. lia. }
+  destruct (gw_margof n chunk _ px Hc Hg Hk' _ Hlv) as [L S]. split; [exact L|].
+  intros i Hi. rewrite (S i Hi). apply rowsum_vmul. congruence.
+Qed.
+
+Lemma Gmat_sym : forall c T, (forall i j, T i j == T j i) -> forall i j, Gmat c T i j == Gmat c T j i.
+Proof. intros c T H i j. unfold Gmat. rewrite (H i j). ring. Qed.
+
+Lemma Gmat_nonneg : forall c T, (forall i, 0 <= qnth c i) -> (forall i j, 0 <= T i j) -> forall i j, 0 <= Gmat c T i j.
+Proof.
+  intros c T Hc HT i j. unfold Gmat. pose proof (Hc i). pose proof (Hc j). pose proof (HT i j).
+  assert (0 <= qnth c i * T i j) by nra. nra.
+Qed.
+
+(** ** genome-wide mode of the model *)
+Section GenomeWide.
+  Variables (n : nat) (chunk : option Z) (fs : list (wpx -> wpx)) (px : list pixel).
+  Hypothesis Hc : chunk_ok chunk.
+  Hypothesis Hg : good_px n px = true.
+  Hypothesis Hk : Forall keyfix fs.
+  Hypothesis Hd : Forall datnn fs.
+  Let margf := margf_gw n (balance_spans (zlen px) chunk) fs px.
+  Let F := Fmat fs px.
+
+  Theorem gw_nan_set : forall tol fuel b bb s v k i,
+    length b = n -> NonNeg b -> ic_loop margf tol fuel b = Some (bb, s, v, k) -> InR n i ->
+    (onth (mark_nan s bb) i = None <-> AllZero F n b \/ qnth b i == 0) /\
+    (forall x, onth (mark_nan s bb) i = Some x -> 0 < x /\ x = qnth bb i).
+  Proof.
+    intros. eapply (nan_set F n (Fmat_nonneg n fs px Hd Hg) margf); eauto.
+    intros b0 Hl0. now apply gw_margof.
+  Qed.
+
+  Theorem gw_flatness : forall tol fuel b bb mu v k eps i,
+    length b = n -> NonNeg b ->
+    ic_loop margf tol fuel b = Some (bb, Some mu, v, k) -> v < tol ->
+    0 <= eps -> eps < 1 -> nnz_rows F n b * tol <= eps * eps * mu * mu ->
+    InR n i -> ~ rowsum F n b i == 0 ->
+    mu / (1 + eps) <= rowsum F n bb i /\ rowsum F n bb i <= mu / (1 - eps).
+  Proof.
+    intros. eapply (loop_flatness F n (Fmat_sym fs px) (Fmat_nonneg n fs px Hd Hg) margf); eauto.
+    intros b0 Hl0. now apply gw_margof.
+  Qed.
+
+  Theorem gw_flatness_rescaled : forall tol fuel b bb mu v k eps i (w : list Q),
+    length b = n -> NonNeg b ->
+    ic_loop margf tol fuel b = Some (bb, Some mu, v, k) -> v < tol ->
+    0 <= eps -> eps < 1 -> nnz_rows F n b * tol <= eps * eps * mu * mu ->
+    (forall j, 0 <= qnth w j /\ qnth w j * qnth w j * mu == qnth bb j * qnth bb j) ->
+    InR n i -> ~ rowsum F n b i == 0 ->
+    1 / (1 + eps) <= rowsum F n w i /\ rowsum F n w i <= 1 / (1 - eps).
+  Proof.
+    intros. eapply (loop_flatness_rescaled F n (Fmat_sym fs px) (Fmat_nonneg n fs px Hd Hg) margf); eauto.
+    intros b0 Hl0. now apply gw_margof.
+  Qed.
+End GenomeWide.
+
+(** ** trans-only mode of the model: everything holds for the matrix G = diag(cw) T diag(cw), i.e. for the
+    weights b_i * cweight_i on the cis-zeroed matrix T *)
+Section TransOnly.
+  Variables (n : nat) (chunk : option Z) (fs : list (wpx -> wpx)) (chroms offsets : list Z) (px : list pixel).
+  Hypothesis Hc : chunk_ok chunk.
+  Hypothesis Hg : good_px n px = true.
+  Hypothesis Hk : Forall keyfix fs.
+  Hypothesis Hd : Forall datnn fs.
+  Hypothesis Hcwl : length (cweights n offsets) = n.
+  Hypothesis Hcwp : forall i, 0 <= qnth (cweights n offsets) i.
+  Let margf := margf_trans n (balance_spans (zlen px) chunk) fs chroms offsets px.
+  Let T := Fmat (fs ++ [f_zero_cis chroms]) px.
+  Let G := Gmat (cweights n offsets) T.
+
+  Lemma trans_T_nonneg : forall i j, 0 <= T i j.
+  Proof.
+    apply (Fmat_nonneg n); [|assumption]. apply Forall_app. split; [assumption|].
+    constructor; [apply datnn_zero_cis | constructor].
+  Qed.
+
+  Theorem trans_nan_set : forall tol fuel b bb s v k i,
+    length b = n -> NonNeg b -> ic_loop margf tol fuel b = Some (bb, s, v, k) -> InR n i ->
+    (onth (mark_nan s bb) i = None <-> AllZero G n b \/ qnth b i == 0) /\
+    (forall x, onth (mark_nan s bb) i = Some x -> 0 < x /\ x = qnth bb i).
+  Proof.
+    intros. eapply (nan_set G n (Gmat_nonneg _ _ Hcwp trans_T_nonneg) margf); eauto.
+    intros b0 Hl0. now apply trans_margof.
+  Qed.
+
+  (** C10.5  the flatness bound holds for the weights b_i * cweight_i (row sums of G under b = row sums of T under b*cw) *)
+  Theorem trans_flatness : forall tol fuel b bb mu v k eps i,
+    length b = n -> NonNeg b ->
+    ic_loop margf tol fuel b = Some (bb, Some mu, v, k) -> v < tol ->
+    0 <= eps -> eps < 1 -> nnz_rows G n b * tol <= eps * eps * mu * mu ->
+    InR n i -> ~ rowsum G n b i == 0 ->
+    mu / (1 + eps) <= rowsum T n (vmul bb (cweights n offsets)) i /\
+    rowsum T n (vmul bb (cweights n offsets)) i <= mu / (1 - eps).
+  Proof.
+    intros tol fuel b bb mu v k eps i Hl Hb H Hv He0 He1 HN Hi Hnz.
+    assert (Hspec : forall b0, length b0 = n -> MargOf G n (margf b0) b0) by (intros; now apply trans_margof).
+    destruct (loop_inv G n (Gmat_nonneg _ _ Hcwp trans_T_nonneg) margf Hspec tol fuel b bb (Some mu) v k Hl Hb H) as [L _].
+    rewrite (rowsum_vmul T n bb (cweights n offsets) i) by congruence.
+    exact (loop_flatness G n (Gmat_sym _ _ (Fmat_sym _ px)) (Gmat_nonneg _ _ Hcwp trans_T_nonneg) margf Hspec
+             tol fuel b bb mu v k eps i Hl Hb H Hv He0 He1 HN Hi Hnz).
+  Qed.
+End TransOnly.
+
+(** C10.5  for the returned weights alone the row sums of T are NOT flat within the band when chromosomes
+    differ in bin count: a concrete run of the model (chromosomes of 1/2/2 bins, tol = 1/100, three sweeps,
+    eps = 1/40 admissible) whose trans row sums differ by more than (1+eps)/(1-eps). Known finding D15. *)
+Definition d15_px : list pixel :=
+  [(0,1,1); (0,2,1); (0,3,1); (0,4,1); (1,3,2); (1,4,1); (2,3,1); (2,4,2)]%Z.
+Definition d15_chroms : list Z := [0; 1; 1; 2; 2]%Z.
+Definition d15_offsets : list Z := [0; 1; 3; 5]%Z.
+Definition d15_T : Z -> Z -> Q := Fmat [f_zero_cis d15_chroms] d15_px.
+
+Theorem trans_rowsum_refuted :
+  exists bb mu v k eps i j,
+    ic_loop (margf_trans 5 (balance_spans 8 None) [] d15_chroms d15_offsets d15_px) (1#100) 10 (repeat 1 5)
+      = Some (bb, Some mu, v, k) /\
+    v < 1#100 /\ 0 <= eps /\ eps < 1 /\
+    nnz_rows (Gmat (cweights 5 d15_offsets) d15_T) 5 (repeat 1 5) * (1#100) <= eps * eps * mu * mu /\
+    InR 5 i /\ InR 5 j /\
+    (1 + eps) / (1 - eps) * rowsum d15_T 5 bb j < rowsum d15_T 5 bb i.
+Proof.
+  eexists. eexists. eexists. eexists. exists (1#40). exists 0%Z. exists 1%Z.
+  split; [vm_compute; reflexivity|].
+  split; [vm_compute; reflexivity|].
+  split; [vm_compute; discriminate|].
+  split; [vm_compute; reflexivity|].
+  split; [vm_compute; discriminate|].
+  split; [unfold InR; lia|]. split; [unfold InR; lia|].
+  vm_compute. reflexivity.
+Qed.
